@@ -14,7 +14,7 @@ if [[ "$T" == *"63 passed"* && $RW -eq 1 && $RO -eq 0 ]]; then
   D=/verif/seeded/$NAME; mkdir -p $D
   cp /tmp/wt/$ID.check.diff $D/patch.diff; cp demo_$ID.py $D/demo.py; cp NOTES.md $D/NOTES.md 2>/dev/null
   BASE=$(git rev-parse HEAD)
-  python3 - "$ID" "$D" "$T" "$BASE" <<'PY'
+  python3 - "${ID%b}" "$D" "$T" "$BASE" <<'PY'
 import json,sys
 i,d,t,base=sys.argv[1:]
 json.dump({"property":i,"base_commit":base,"needs":"see NOTES.md","verified":{"tests_with_patch":t,"demo_with_patch_exit":1,"demo_without_patch_exit":0,
